@@ -91,6 +91,8 @@ type dcCtx struct {
 	memo  map[string]*dcSummary
 	busy  map[string]bool
 	clean *ssa.Function
+	// entry points analysed with the contact assumed out of date on entry (value = why)
+	initialDirty map[*ssa.Function]string
 }
 
 type dcSummary struct {
@@ -154,6 +156,9 @@ func (c *dcCtx) analyse(fn *ssa.Function, nilParams map[int]bool, depth int) *dc
 	in := map[*ssa.BasicBlock]dcState{}
 	out := map[*ssa.BasicBlock]dcState{}
 	in[fn.Blocks[0]] = dcState{reach: true}
+	if why, ok := c.initialDirty[fn]; ok && depth == 0 {
+		in[fn.Blocks[0]] = dcState{reach: true, dirty: true, why: why, roots: addRoots("", map[string]bool{"param:0": true})}
+	}
 
 	transfer := func(st dcState, instr ssa.Instruction) dcState {
 		ci, ok := instr.(ssa.CallInstruction)
@@ -383,6 +388,20 @@ func (c *dcCtx) analyse(fn *ssa.Function, nilParams map[int]bool, depth int) *dc
 					continue
 				}
 			}
+			// a forwarded callee error: not a hand-back when the return sits on the `err != nil` edge
+			nonNil := false
+			for _, ce := range core.ControllingConds(ret.Block()) {
+				if bo, ok := ce.Cond.(*ssa.BinOp); ok && (bo.Op == token.NEQ || bo.Op == token.EQL) {
+					if (bo.X == ev && core.IsNilConst(bo.Y)) || (bo.Y == ev && core.IsNilConst(bo.X)) {
+						if (bo.Op == token.NEQ) == ce.Taken {
+							nonNil = true
+						}
+					}
+				}
+			}
+			if nonNil {
+				continue
+			}
 		}
 		nRet++
 		if st.dirty || st.pending != nil {
@@ -437,6 +456,62 @@ func (c *dcCtx) analyse(fn *ssa.Function, nilParams map[int]bool, depth int) *dc
 	return sm
 }
 
+// groupsEventGuard: the contact_groups_changed event built at `event` from the (added, removed) results of `call` may
+// be skipped only when BOTH lists are empty: no non-emptiness test of one list may dominate it, and the chain of
+// tests leading into it must test both lists (or there is no test at all). Returns "" or what is wrong.
+func groupsEventGuard(call *ssa.Call, event ssa.Instruction) string {
+	guardBad := ""
+	isLenTest := func(cond ssa.Value) (int, bool) {
+		bo, ok := cond.(*ssa.BinOp)
+		if !ok {
+			return 0, false
+		}
+		for _, side := range []ssa.Value{bo.X, bo.Y} {
+			if lc, ok := side.(*ssa.Call); ok {
+				if bi, ok := lc.Call.Value.(*ssa.Builtin); ok && bi.Name() == "len" {
+					for k := 0; k < 2; k++ {
+						if derivesFromExtract(lc.Call.Args[0], call, k) {
+							return k, true
+						}
+					}
+				}
+			}
+		}
+		return 0, false
+	}
+	for _, ce := range core.ControllingConds(event.Block()) {
+		if k, ok := isLenTest(ce.Cond); ok {
+			guardBad = fmt.Sprintf("the event is built only when %s is non-empty", []string{"added", "removed"}[k])
+		}
+	}
+	tested := map[int]bool{}
+	seenB := map[*ssa.BasicBlock]bool{}
+	var back func(b *ssa.BasicBlock)
+	back = func(b *ssa.BasicBlock) {
+		if seenB[b] {
+			return
+		}
+		seenB[b] = true
+		for _, pr := range b.Preds {
+			iff, ok := pr.Instrs[len(pr.Instrs)-1].(*ssa.If)
+			if !ok {
+				continue
+			}
+			if k, ok := isLenTest(iff.Cond); ok {
+				tested[k] = true
+				back(pr)
+			} else if len(tested) == 0 && core.InstrDominates(call, iff) && pr.Succs[0] != pr.Succs[1] {
+				guardBad = "the event is also conditional on " + iff.Cond.String()
+			}
+		}
+	}
+	back(event.Block())
+	if guardBad == "" && len(tested) > 0 && !(tested[0] && tested[1]) {
+		guardBad = "only one of the two lists is tested for the event"
+	}
+	return guardBad
+}
+
 func isErrorType(t types.Type) bool {
 	n, ok := t.(*types.Named)
 	return ok && n.Obj().Name() == "error" && n.Obj().Pkg() == nil
@@ -458,7 +533,10 @@ func checkC06(p *core.Program, r *core.Report) {
 		r.Errorf("ReevaluateQueryBasedGroups / modifiers.Apply not found")
 		return
 	}
-	ctx := &dcCtx{p: p, memo: map[string]*dcSummary{}, busy: map[string]bool{}, clean: reeval}
+	ctx := &dcCtx{p: p, memo: map[string]*dcSummary{}, busy: map[string]bool{}, clean: reeval, initialDirty: map[*ssa.Function]string{}}
+	// the starting contact's stored membership may already be wrong (the property's quantifier): a new session must
+	// re-evaluate on every path to a hand-back even if nothing changes the contact
+	ctx.initialDirty[e.start] = "the starting contact's stored membership is not trusted"
 	// positive control: the direct mutators are recognised through their call sites
 	nDirty := 0
 	for _, cs := range p.AllCalls() {
@@ -480,6 +558,27 @@ func checkC06(p *core.Program, r *core.Report) {
 		r.Check(!sm.dirtyAtExit, "R1", ent.label+"/clean-at-hand-back", p.Pos(ent.fn.Pos()), "every non-error return is reached with groups re-evaluated after the last contact change",
 			"a path hands the contact back with a queryable property changed after the last group re-evaluation: "+sm.why)
 	}
+	// R1 treats Modifier.Apply as "changed exactly when it returns true"; that is C03/R2's `mutated=>true`, decided per
+	// implementation by the same path engine, and carried over here as an obligation of this property
+	sub := core.NewReport("C03", r.Tier)
+	checkC03(p, sub)
+	nImpl := 0
+	for _, ob := range sub.Obs {
+		if ob.Rule != "R2" || !strings.HasSuffix(ob.Key, "/mutated=>true") {
+			continue
+		}
+		nImpl++
+		construct := strings.TrimSuffix(strings.TrimPrefix(ob.Key, "C03/R2/"), "/mutated=>true") + "/changed-implies-true"
+		switch ob.Status {
+		case core.Discharged:
+			r.OK("R1", construct, ob.Pos, "returns true on every path that changed the contact (so modifiers.Apply re-evaluates)")
+		case core.Undecided:
+			r.Unknown("R1", construct, ob.Pos, ob.Detail)
+		default:
+			r.Bad("R1", construct, ob.Pos, "changes the contact on a path that returns false, so modifiers.Apply skips the group re-evaluation: "+ob.Detail)
+		}
+	}
+	r.Require("modifier_apply_impls", nImpl, 9)
 	r.Count("functions_summarised", len(ctx.memo))
 
 	// the engine-level cleaner really cleans
@@ -609,6 +708,49 @@ func checkC06(p *core.Program, r *core.Report) {
 		r.Check(ok && bad == "", "R2", "Contact.ReevaluateQueryBasedGroups/every-query-group", p.Pos(reeval.Pos()), "membership is checked for every group with UsesQuery() (no other filter)", "some query-based groups are skipped when re-evaluating: "+bad)
 	}
 
+	// both directions: qualifying -> Add, not qualifying -> Remove, on the group that was checked
+	{
+		var q *ssa.Call
+		for _, cs := range core.Calls(reeval, false) {
+			if o := core.CalleeObj(cs.Common()); o != nil && core.ObjName(o) == "flows.Group.CheckQueryBasedMembership" {
+				q, _ = cs.Instr.(*ssa.Call)
+			}
+		}
+		dir := map[string]bool{}
+		if q != nil {
+			for _, cs := range core.Calls(reeval, false) {
+				o := core.CalleeObj(cs.Common())
+				if o == nil {
+					continue
+				}
+				nm := core.ObjName(o)
+				if nm != "flows.GroupList.Add" && nm != "flows.GroupList.Remove" {
+					continue
+				}
+				args := cs.Common().Args
+				if len(args) < 2 || args[len(args)-1] != q.Call.Args[0] {
+					continue
+				}
+				for _, ce := range core.ControllingConds(cs.Instr.Block()) {
+					cond, taken := ce.Cond, ce.Taken
+					if un, ok := cond.(*ssa.UnOp); ok && un.Op == token.NOT {
+						cond, taken = un.X, !taken
+					}
+					if cond == ssa.Value(q) {
+						if nm == "flows.GroupList.Add" && taken {
+							dir["add"] = true
+						}
+						if nm == "flows.GroupList.Remove" && !taken {
+							dir["remove"] = true
+						}
+					}
+				}
+			}
+		}
+		r.Check(q != nil && dir["add"], "R2", "Contact.ReevaluateQueryBasedGroups/qualifying-added", p.Pos(reeval.Pos()), "a group whose query matches is added (on the true edge of CheckQueryBasedMembership, same group)", "a query-based group whose query matches the contact is not added to its groups")
+		r.Check(q != nil && dir["remove"], "R2", "Contact.ReevaluateQueryBasedGroups/non-qualifying-removed", p.Pos(reeval.Pos()), "a group whose query does not match is removed (on the false edge, same group)", "a query-based group whose query no longer matches the contact is not removed from its groups")
+	}
+
 	// ------------------------------------------------------------------ R3 (shared shape with C03/R5)
 	n := 0
 	for _, cs := range p.CallsTo(reeval) {
@@ -628,6 +770,8 @@ func checkC06(p *core.Program, r *core.Report) {
 				if derivesFromExtract(a[0], call, 0) && derivesFromExtract(a[1], call, 1) && valueReachesCallback(c2.Instr.(ssa.Value), cs.Caller) {
 					okFwd = true
 				}
+				guardBad := groupsEventGuard(call, c2.Instr)
+				r.Check(guardBad == "", "R3", core.FuncName(cs.Caller)+"/event-whenever-membership-changed", p.Pos(c2.Pos()), "skipped only when both lists are empty", guardBad+": a membership change of the other kind happens silently")
 			}
 		}
 		r.Check(okFwd, "R3", core.FuncName(cs.Caller)+"/forwards-group-changes", p.Pos(cs.Pos()), "added->arg0, removed->arg1, logged", "membership changes are not reported in a contact_groups_changed event")
